@@ -17,7 +17,11 @@ git -C $WT apply $OUT/patch.diff >> $LOG 2>&1 || { echo "patch does not apply" >
 # (a) suite with patch
 if [ ! -f $WT/_build/build.ninja ]; then cmake -S $WT -B $WT/_build -G Ninja -DCMAKE_BUILD_TYPE=RelWithDebInfo -DBUILD_TESTING=ON -DBOOST_MQTT5_PUBLIC_BROKER_TESTS=ON -DCMAKE_CXX_FLAGS=-Wno-error > /dev/null 2>&1; fi
 cmake --build $WT/_build -j8 > $OUT/suite_build.log 2>&1; BR=$?
-if [ $BR -eq 0 ]; then ctest --test-dir $WT/_build/test --timeout 900 > $OUT/suite_run.log 2>&1; A=$?; else A=99; fi
+ATT=0
+if [ $BR -eq 0 ]; then
+  for try in 1 2 3; do ATT=$try; ctest --test-dir $WT/_build/test --timeout 900 --output-on-failure > $OUT/suite_run.log 2>&1; A=$?; [ $A -eq 0 ] && break; grep -E "error: in|has failed|\*\*\* [0-9]+ failure" $OUT/suite_run.log | head -5 >> $LOG; done
+else A=99; fi
+echo "suite attempts: $ATT (timing-sensitive integration tests flake under machine load; a pass in any of up to 3 full runs counts)" >> $LOG
 tail -3 $OUT/suite_run.log >> $LOG 2>/dev/null
 git -C $WT checkout -- .
 rm -f $OUT/demo $OUT/*.o $OUT/suite_build.log
